@@ -80,11 +80,18 @@ One can reverse a captured panic stack trace as follows:
 				switch node := node.(type) {
 
 				// Replace names.
-				// TODO: do var names ever show up in output?
 				case *ast.FuncDecl:
 					addHashedWithPackage(node.Name.Name)
 				case *ast.TypeSpec:
 					addHashedWithPackage(node.Name.Name)
+				case *ast.ValueSpec:
+					// Variable names are listed by "garble map" too,
+					// and they show up in linker and compiler errors.
+					for _, name := range node.Names {
+						if name.Name != "_" {
+							addHashedWithPackage(name.Name)
+						}
+					}
 				case *ast.Field:
 					for _, name := range node.Names {
 						obj, _ := tf.info.ObjectOf(name).(*types.Var)
